@@ -320,3 +320,34 @@ Fixpoint run (pr : params) (st : state) (ops : list op) : state * list out :=
       let '(st2, xs) := run pr st1 ops' in
       (st2, x :: xs)
   end.
+
+(* ------------------------------------------------------------------------------------------- *)
+(* Operations that complete while another one is waiting for somebody else.
+
+   AttestAndScheduleAggregate first calls s.attester.Attest (the beacon node is asked for the
+   attestation data, the attestations are signed and submitted: hundreds of milliseconds) and only
+   THEN reads s.subscriptionInfos[epoch]; subscribeToBeaconCommittees first calls Subscribe (the
+   duties request, one signing request per slot) and only THEN stores the result.  Neither holds a
+   lock meanwhile, and both run as jobs / goroutines next to the head-event handler and to each
+   other (start-up launches the epoch's subscribe and the already-due attestation job side by side;
+   a reorganisation re-creates the attestation jobs and re-subscribes).  So a subscribe or a head
+   event that completes while Attest is in flight has taken effect when the information is looked
+   up, and an attest or head event that completes while Subscribe is in flight sees the
+   information of before that subscribe: in both cases the operations [mid] that complete during
+   the call come first in the controller's history and the waiting operation [o] after them.
+   The current slot of [o] is the one read after the call returned (the attest loop reads
+   CurrentSlot() per attestation after Attest; Subscribe reads it when it launches the submission). *)
+Inductive hop :=
+| HOp (o : op)
+| HDuring (mid : list op) (o : op).
+    (* [mid] complete while [o]'s first outside call (attester.Attest; the duties request of
+       Subscribe) is in flight *)
+
+Definition linearise (hs : list hop) : list op :=
+  flat_map (fun h => match h with HOp o => [o] | HDuring mid o => mid ++ [o] end) hs.
+
+(* The other order, kept for the refutation theorem: the waiting operation takes what it needs
+   before the call (`subscriptionInfos[epoch]` looked up before s.attester.Attest), i.e. as far as
+   the information is concerned it comes BEFORE whatever completes during the call. *)
+Definition linearise_snapshot (hs : list hop) : list op :=
+  flat_map (fun h => match h with HOp o => [o] | HDuring mid o => o :: mid end) hs.
